@@ -168,7 +168,11 @@ func emitGcOp(o *hxlib.Out, sp *ssa.Program, si *ssaInfo, tr *hxlib.StreamTransc
 		pre = append(pre, fmt.Sprintf("%s:%s:%s", opClass(in.Op), out, strings.Join(a, "|")))
 		post = append(post, fmt.Sprintf("%s(%s)>%s", opClass(in.Op), strings.Join(ca, ","), cout))
 	}
-	res := "steps=" + strings.Join(post, "/")
+	wf := 1
+	if si.UBD > 0 || si.DupOut > 0 {
+		wf = 0
+	}
+	res := fmt.Sprintf("wf=%d;steps=%s", wf, strings.Join(post, "/"))
 	cmd := "gco"
 	if sessionOK && tr != nil && tr.Err == "" {
 		cmd = "gc"
@@ -189,4 +193,136 @@ func emitGcOp(o *hxlib.Out, sp *ssa.Program, si *ssaInfo, tr *hxlib.StreamTransc
 	zv, ov := zeroValue(), oneValue()
 	zo := fmt.Sprintf("%d.%d,%d.%d", si.key(&zv), bucketOf(&zv), si.key(&ov), bucketOf(&ov))
 	o.Op(fmt.Sprintf("c05 %s %s %s %s %s", cmd, strings.Join(ins, ","), zo, cs, strings.Join(pre, ";")), res)
+}
+
+// emitScrambleOp: the real Program.GC (defineBeforeUse + gc insertion, 73f8795)
+// on a step list in which the harness has moved 1..3 defining steps BEHIND the
+// first use of their value (what block serialisation did to lazily resolved
+// phis).  sp is a fresh compilation (it is modified).  Result line: is the
+// real output a permutation of the input, is it in definition-before-use
+// order, and the steps; the Lean model (gcPass = gcInsert . defineBeforeUse)
+// must print the same.
+func emitScrambleOp(o *hxlib.Out, sp *ssa.Program, r *hxlib.Rng, p *prog, caseIdx int) {
+	var steps []ssa.Step
+	for _, s := range sp.Steps {
+		if s.Instr.Op == ssa.Circ {
+			return
+		}
+		if s.Instr.Op != ssa.GC {
+			steps = append(steps, s)
+		}
+	}
+	n := len(steps)
+	if n < 4 || n > 400 {
+		return
+	}
+	moves := 0
+	for try := 0; try < 12 && moves < 1+r.Intn(3); try++ {
+		i := r.Intn(n - 1)
+		out := steps[i].Instr.Out
+		if out == nil {
+			continue
+		}
+		first := -1
+		for u := i + 1; u < n; u++ {
+			for _, in := range steps[u].Instr.In {
+				if !in.Const && in.ID == out.ID {
+					first = u
+				}
+			}
+			if first >= 0 {
+				break
+			}
+		}
+		if first < 0 || first >= n-1 {
+			continue
+		}
+		p := first + r.Intn(n-1-first) // new index, behind the first use, before ret
+		moved := steps[i]
+		copy(steps[i:p], steps[i+1:p+1])
+		steps[p] = moved
+		moves++
+	}
+	if moves == 0 {
+		return
+	}
+	si := &ssaInfo{keys: map[string]int{}}
+	render := func(list []ssa.Step, rich bool) []string {
+		var res []string
+		for i := range list {
+			in := &list[i].Instr
+			if in.Op == ssa.GC {
+				res = append(res, fmt.Sprintf("gc(%s)>-", canonArg(in.GC)))
+				continue
+			}
+			var a, ca []string
+			for j := range in.In {
+				a = append(a, si.argStr(&in.In[j]))
+				ca = append(ca, canonArg(&in.In[j]))
+			}
+			out, cout := "-", "-"
+			if in.Out != nil {
+				out, cout = si.argStr(in.Out), canonArg(in.Out)
+			}
+			if rich {
+				res = append(res, fmt.Sprintf("%s:%s:%s", opClass(in.Op), out, strings.Join(a, "|")))
+			} else {
+				res = append(res, fmt.Sprintf("%s(%s)>%s", opClass(in.Op), strings.Join(ca, ","), cout))
+			}
+		}
+		return res
+	}
+	pre := render(steps, true)
+	inCanon := render(steps, false)
+	sp.Steps = append([]ssa.Step(nil), steps...)
+	result := func() (s string) {
+		defer func() {
+			if e := recover(); e != nil {
+				s = "gc-panic"
+			}
+		}()
+		sp.GC()
+		// the real output: permutation of the input? definition before use?
+		var nogc []ssa.Step
+		for _, s := range sp.Steps {
+			if s.Instr.Op != ssa.GC {
+				nogc = append(nogc, s)
+			}
+		}
+		a, b := render(nogc, false), append([]string(nil), inCanon...)
+		sort.Strings(a)
+		sort.Strings(b)
+		perm := 0
+		if strings.Join(a, "/") == strings.Join(b, "/") {
+			perm = 1
+		}
+		wf := 1
+		def := map[ssa.ValueID]int{}
+		for i := range nogc {
+			if nogc[i].Instr.Out != nil {
+				if _, dup := def[nogc[i].Instr.Out.ID]; dup {
+					wf = 0
+				}
+				def[nogc[i].Instr.Out.ID] = i
+			}
+		}
+		for i := range nogc {
+			for _, in := range nogc[i].Instr.In {
+				if d, ok := def[in.ID]; ok && !in.Const && d >= i {
+					wf = 0
+				}
+			}
+		}
+		if perm == 0 || wf == 0 {
+			o.Fail("c05-define-before-use-broken", map[string]any{"perm": perm, "wf": wf, "case": caseIdx, "src": p.Src,
+				"g_inputs": p.GIn, "e_inputs": p.EIn,
+				"note": "Program.GC on this program's step list with definitions moved behind their first use: the " +
+					"result is not a permutation in definition-before-use order",
+				"scrambled_steps": clip(strings.Join(inCanon, "/"), 3000)})
+		}
+		return fmt.Sprintf("perm=%d;wf=%d;steps=%s", perm, wf, strings.Join(render(sp.Steps, false), "/"))
+	}()
+	o.Count("gcop_scrambled")
+	o.CountN("gcop_scramble_moves", moves)
+	o.Op("c05 gcs "+strings.Join(pre, ";"), result)
 }
